@@ -150,6 +150,7 @@ FuncContract.unreachable_ok_lines = _unreachable_ok_lines
 FuncContract.unreachable_ok = ()
 FuncContract.frame_check = True
 FuncContract.cuts = ()
+FuncContract.impl = None        # qualified name of the function whose body implements this contract (inherited methods)
 FuncContract.body_only = ()    # names of ensures clauses that are verified on the body but not assumed at call sites
 FuncContract.owns = ()         # locations whose object is part of self's representation (see owned_oids)
 FuncContract.only_segments = None      # verify only these segments (others are outside the subset / outside the property)
@@ -409,9 +410,10 @@ def verify_function(eng, con, label=None, setup=None, extra_checks=None):
     """Generate the obligations of `con` for the body of the real function con.qual.
     Returns number of paths; obligations are appended to eng.obligations.
     Raises OutOfSubset if the body leaves the supported subset."""
-    fn = eng.repo.find(con.qual)
+    # an inherited method verified for a subclass: the contract is named after the subclass, the body is the base class's (`impl`)
+    fn = eng.repo.find(getattr(con, "impl", None) or con.qual)
     if fn is None:
-        raise OutOfSubset("function %s not found in the tree" % con.qual)
+        raise OutOfSubset("function %s not found in the tree" % (getattr(con, "impl", None) or con.qual))
     modname = con.qual.split(".")[0]
     label = label or con.qual
     is_method = bool(fn.args.args) and fn.args.args[0].arg == "self"
@@ -587,7 +589,12 @@ def cut_index(fn, cut, eng, modname):
         # the anchor may sit on any line of the statement's header (multi-line conditions), not inside its body
         first_body = getattr(st, "body", None)
         last = (first_body[0].lineno - 1) if isinstance(first_body, list) and first_body else getattr(st, "end_lineno", st.lineno)
-        if any(cut.anchor in text[l - 1] for l in range(st.lineno, max(last, st.lineno) + 1)):
+        lines = [text[l - 1] for l in range(st.lineno, max(last, st.lineno) + 1)]
+        if hasattr(cut.anchor, "search"):
+            # a compiled pattern over the statement's header: survives rewrites of the rest of the condition
+            if cut.anchor.search(" ".join(x.strip() for x in lines)):
+                return k
+        elif any(cut.anchor in x for x in lines):
             return k
     raise OutOfSubset("cut anchor %r is not a top-level statement of the function" % cut.anchor)
 
